@@ -29,7 +29,7 @@ func init() {
 		MinEvals:    floor(3200, 110000),
 		MinDistinct: floor(1500, 40000),
 		RequiredCells: func(string) []string {
-			cells := []string{"scale", "scale/long-chain", "scale/many-statements", "scale/history", "heterogeneous", "heterogeneous/some-statement-false", "hook/returns-satisfying", "hook/returns-violating", "hook/returns-empty", "hook/returns-subset", "hook/error", "hook/sees-token-args", "mono/add-statement", "mono/add-link", "pattern/only-root", "pattern/only-leaf", "all-true"}
+			cells := []string{"twins", "twins/true-then-false", "twins/false-then-true", "twins/same-policy", "twins/different-links", "scale", "scale/long-chain", "scale/many-statements", "scale/history", "heterogeneous", "heterogeneous/some-statement-false", "hook/returns-satisfying", "hook/returns-violating", "hook/returns-empty", "hook/returns-subset", "hook/error", "hook/sees-token-args", "mono/add-statement", "mono/add-link", "pattern/only-root", "pattern/only-leaf", "all-true"}
 			for _, lp := range []string{"first", "middle", "last"} {
 				for _, sp := range []string{"first", "middle", "last", "only"} {
 					cells = append(cells, "false/link="+lp+"/stmt="+sp)
@@ -132,6 +132,7 @@ func kindsPerLink(s *chain.Scenario) string {
 func runC03(w *mon.W) {
 	c03Heterogeneous(w)
 	c03Scale(w)
+	c03Twins(w)
 	r := w.Rng
 	total := w.Share(w.Pick(3500, 100000))
 	for it := 0; it < total; it++ {
@@ -637,4 +638,100 @@ func flipNil(e error) error {
 		return errors.New("allowed")
 	}
 	return nil
+}
+
+// c03Twins: two statements that look alike (same operator and selector, literals that print
+// the same or nearly the same: 100 and 100.0, 5 and "5", true and "true") but are different
+// statements - the argument satisfies one and not the other. They sit in the same policy or
+// in different links, in both orders; every statement binds, so the invocation must be
+// denied. Catches statements merged, cached or de-duplicated by a rendering.
+func c03Twins(w *mon.W) {
+	r := w.Rng
+	total := w.Share(w.Pick(600, 12000))
+	for it := 0; it < total; it++ {
+		n := 1 + r.IntN(3)
+		s := chain.Conformant(r, n, 0)
+		// arguments with numeric / string / bool leaves at known places
+		val := []ref.V{ref.Int(int64(r.IntN(200))), ref.Int(-int64(r.IntN(50))), ref.Float(float64(r.IntN(100))), ref.Str(fmt.Sprint(r.IntN(10))), ref.Bool(r.IntN(2) == 0), ref.Str("true")}[it%6]
+		s.Args = ref.Map(ref.E("amount", val), ref.E("other", ref.Int(1)), ref.E("nested", ref.Map(ref.E("v", val))))
+		sel := ref.Sel{{Kind: ref.SField, Name: "amount"}}
+		if r.IntN(3) == 0 {
+			sel = ref.Sel{{Kind: ref.SField, Name: "nested"}, {Kind: ref.SField, Name: "v"}}
+		}
+		var a, b ref.Stmt
+		switch val.K {
+		case ref.KInt:
+			op := gen.Pick(r, []string{"==", "<=", ">="})
+			a = ref.Stmt{Kind: op, Sel: sel, Val: ref.Int(val.I)}
+			b = ref.Stmt{Kind: op, Sel: sel, Val: ref.Float(float64(val.I))}
+			if it%5 == 0 {
+				b = ref.Stmt{Kind: "==", Sel: sel, Val: ref.Str(fmt.Sprint(val.I))}
+				a.Kind = "=="
+			}
+		case ref.KFloat:
+			op := gen.Pick(r, []string{"==", "<=", ">="})
+			a = ref.Stmt{Kind: op, Sel: sel, Val: ref.Float(val.F)}
+			b = ref.Stmt{Kind: op, Sel: sel, Val: ref.Int(int64(val.F))}
+		case ref.KString:
+			a = ref.Stmt{Kind: "==", Sel: sel, Val: ref.Str(val.S)}
+			if val.S == "true" {
+				b = ref.Stmt{Kind: "==", Sel: sel, Val: ref.Bool(true)}
+			} else {
+				var i int64
+				fmt.Sscan(val.S, &i)
+				b = ref.Stmt{Kind: "==", Sel: sel, Val: ref.Int(i)}
+			}
+		case ref.KBool:
+			a = ref.Stmt{Kind: "==", Sel: sel, Val: ref.Bool(val.B)}
+			b = ref.Stmt{Kind: "==", Sel: sel, Val: ref.Str(fmt.Sprint(val.B))}
+		}
+		ta, _ := ref.Eval(a, s.Args)
+		tb, _ := ref.Eval(b, s.Args)
+		if ta != ref.True || tb != ref.False {
+			w.Inconclusive(fmt.Sprintf("C03 twins: model says %s -> %v, %s -> %v on %s", a, ta, b, tb, s.Args))
+			continue
+		}
+		if it%7 == 3 {
+			// nested under a connective as well
+			a = ref.Stmt{Kind: "and", Subs: []ref.Stmt{a}}
+			b = ref.Stmt{Kind: "and", Subs: []ref.Stmt{b}}
+		}
+		first, second := a, b
+		order := "true-then-false"
+		if it%2 == 1 {
+			first, second = b, a
+			order = "false-then-true"
+		}
+		li, lj := r.IntN(n), r.IntN(n)
+		if li > lj {
+			li, lj = lj, li
+		}
+		s.Links[li].Pol = append(s.Links[li].Pol, first)
+		s.Links[lj].Pol = append(s.Links[lj].Pol, second)
+		for k := range s.Links {
+			s.Links[k].PolIPLD = r.IntN(2) == 0
+		}
+		s.Wire = r.IntN(3)
+		bld, err := s.Build(r)
+		if err != nil {
+			w.Inconclusive("C03 twins scenario could not be realised: " + err.Error())
+			continue
+		}
+		e := allowed(bld.Inv, bld.Loader, it%3 == 0)
+		w.Eval(1)
+		w.Cover("twins")
+		w.Cover("twins/" + order)
+		if li == lj {
+			w.Cover("twins/same-policy")
+		} else {
+			w.Cover("twins/different-links")
+		}
+		w.Distinct("twins", a.String(), b.String(), li, lj, order, n)
+		if e == nil {
+			d := s.Describe()
+			d["true_statement"] = a.String()
+			d["false_statement"] = b.String()
+			w.Violate("unsound/twin-statements/"+order+"/"+val.K.String(), fmt.Sprintf("ExecutionAllowed = nil although statement %s is false on the arguments %s (its look-alike %s is true)", b, s.Args, a), d)
+		}
+	}
 }
